@@ -1,9 +1,12 @@
 package checks
 
 import (
+	"bytes"
 	"encoding/json"
 	"fmt"
 	"hash/fnv"
+	"os"
+	"path/filepath"
 	"sort"
 	"strings"
 	"sync"
@@ -11,12 +14,14 @@ import (
 
 	"github.com/github/git-sizer/sizes"
 
+	"verif/cli"
 	"verif/explore"
 	"verif/gen"
 	"verif/inproc"
 	"verif/modelgit"
 	"verif/mrepo"
 	"verif/oracle"
+	"verif/realgit"
 )
 
 var installOnce sync.Once
@@ -178,6 +183,8 @@ func (n *numRun) one(sc *gen.Scenario, order []mrepo.ID, style sizes.NameStyle, 
 	return &res
 }
 
+func inprocNumbers(hs *sizes.HistorySize) map[string]uint64 { return inproc.Numbers(hs) }
+
 func defaultListing(sc *gen.Scenario) *modelgit.Listing {
 	l, err := modelgit.DefaultListing(sc.Repo, sc.Roots())
 	if err != nil {
@@ -232,6 +239,53 @@ func c03Worker(sh *explore.Shard) {
 			return cont
 		})
 	}
+	// real git chooses the order: every DAG x every assignment of distinct
+	// timestamps to the commits (children older than their parents included),
+	// all commits that have no child as roots; real binary + real git
+	realN := 3
+	if sh.Tier == "thorough" {
+		realN = 4
+	}
+	for nn := 2; nn <= realN && !sh.Expired(); nn++ {
+		gen.CommitDAGs(nn, func(r0 *mrepo.Repo, _ []mrepo.ID, masks []uint) bool {
+			cont := true
+			explore.Perm(nn, func(perm []int) bool {
+				idx++
+				if !sh.Mine(idx) {
+					return true
+				}
+				if sh.Expired() {
+					cont = false
+					return false
+				}
+				r := mrepo.New()
+				lv := gen.AddLeaves(r)
+				tree := r.AddTree([]mrepo.Entry{{Mode: 0o100644, Name: "a", Child: lv.BlobA}})
+				ids := make([]mrepo.ID, nn)
+				hasChild := map[int]bool{}
+				for c := 0; c < nn; c++ {
+					var ps []mrepo.ID
+					for p := c - 1; p >= 0; p-- {
+						if masks[c]&(1<<uint(p)) != 0 {
+							ps = append(ps, ids[p])
+							hasChild[p] = true
+						}
+					}
+					ids[c] = r.AddCommit(mrepo.CommitSpec{Tree: tree, Parents: ps, Time: gen.T0 + int64(perm[c])*1000, Message: fmt.Sprintf("c%d\n", c)})
+				}
+				for c := 0; c < nn; c++ {
+					if !hasChild[c] {
+						r.SetRef(fmt.Sprintf("refs/heads/tip%d", c), ids[c])
+					}
+				}
+				sc := &gen.Scenario{Repo: r, Desc: fmt.Sprintf("real-git order: dag n=%d masks=%v timestamps=%v", nn, masks, perm)}
+				conform(sh, "C03", depthKeys, sc)
+				sh.C.Nontrivial++
+				return true
+			})
+			return cont
+		})
+	}
 	// tags: all forests x all non-empty root subsets x all listing orders
 	for mm := 1; mm <= maxM && !sh.Expired(); mm++ {
 		gen.TagForests(mm, func(r *mrepo.Repo, tags []mrepo.ID, targets []int) bool {
@@ -276,7 +330,7 @@ func c03Worker(sh *explore.Shard) {
 
 func treeAlphabet(tier string) (int, gen.TreeAlphabet) {
 	if tier == "thorough" {
-		return 3, gen.TreeAlphabet{Names: []string{"a", "bb", "c.d"}, Leaves: "blse", MaxEntries: 3}
+		return 3, gen.TreeAlphabet{Names: []string{"a", "bb", "c.d"}, Leaves: "bls", MaxEntries: 3}
 	}
 	return 3, gen.TreeAlphabet{Names: []string{"a", "bbb"}, Leaves: "bls", MaxEntries: 2}
 }
@@ -318,7 +372,11 @@ func c04Worker(sh *explore.Shard) {
 			sc.Desc = fmt.Sprintf("treedag k=%d #%d", kk, idx)
 			l := defaultListing(sc)
 			n.beginScenario()
-			n.maybeConform(sc, idx, 67)
+			cstride := int64(67)
+			if sh.Tier == "thorough" {
+				cstride = 1999
+			}
+			n.maybeConform(sc, idx, cstride)
 			cnt, _ := gen.Orders(sc.Repo, l, gen.OrderSpace{Trees: true}, func(order []mrepo.ID) bool {
 				n.one(sc, order, sizes.NameStyleNone, true, nil)
 				return true
@@ -520,7 +578,7 @@ func c02Worker(sh *explore.Shard) {
 	maxN := 3
 	lens := []int{0, 7}
 	if sh.Tier == "thorough" {
-		maxN = 4
+		maxN = 3
 		lens = []int{0, 7, 7, 30}
 	}
 	// (a) commits: all DAGs x message-length vectors (ties included) x all linear extensions
@@ -752,6 +810,21 @@ func c09Worker(sh *explore.Shard) {
 		}
 		return true
 	})
+	c09GraphSearch(sh, &idx)
+	// storage layouts: the same object graph loose, repacked, with packed refs,
+	// after gc: the real binary with real git must print identical numbers
+	mixedScenarios("quick", func(r *mrepo.Repo, special map[string]mrepo.ID, desc string) bool {
+		idx++
+		stride := int64(37)
+		if sh.Tier == "thorough" {
+			stride = 5
+		}
+		if idx%stride != 0 || !sh.Mine(idx) || sh.Expired() {
+			return true
+		}
+		c09Layouts(sh, &gen.Scenario{Repo: r, Desc: desc})
+		return true
+	})
 	// root-order family: references aliasing the same object, every subset of
 	// the references as selection, every permutation of the reference listing,
 	// every order of the ROOT arguments
@@ -815,6 +888,54 @@ func c09Worker(sh *explore.Shard) {
 	n.end()
 }
 
+// c09Layouts materialises the scenario and re-runs the CLI after each change of
+// storage layout; stdout (JSON, names off) must stay byte-identical and equal
+// to the oracle.
+func c09Layouts(sh *explore.Shard, sc *gen.Scenario) {
+	dir := scratch("c09l")
+	defer os.RemoveAll(dir)
+	gd := filepath.Join(dir, "repo.git")
+	if err := realgit.Materialise(sc.Repo, gd); err != nil {
+		return
+	}
+	want := oracle.Compute(sc.Repo, sc.Roots()).Numbers()
+	var first []byte
+	steps := [][]string{nil, {"pack-refs", "--all"}, {"repack", "-a", "-d", "-q"}, {"gc", "-q"}, {"gc", "-q", "--aggressive", "--prune=now"}, {"repack", "-a", "-d", "-q", "-f", "--depth=1"}}
+	for _, st := range steps {
+		layout := "loose"
+		if st != nil {
+			layout = strings.Join(st, " ")
+			if out, err := realgit.RunPlain(gd, []string{"GIT_DIR=" + gd}, st...); err != nil {
+				sh.C.Notes = append(sh.C.Notes, "git "+layout+" failed: "+string(out))
+				return
+			}
+		}
+		res := cli.Run(gd, "", nil, 60*time.Second, "--json", "--no-progress", "--names=none")
+		sh.C.Evals++
+		sh.C.Add("layout_runs", 1)
+		mk := func(class, msg string) {
+			sh.C.Violate(explore.Violation{Property: "C09", Class: class, Msg: fmt.Sprintf("layout %q: %s [%s]", layout, msg, sc.Desc),
+				Case: caseJSON(sh.Index(), map[string]any{"desc": sc.Desc, "layout": layout}), Detail: sc.Repo.Describe()})
+		}
+		if res.Exit != 0 {
+			mk("cli-error", fmt.Sprintf("exit %d: %s", res.Exit, tailBytes(res.Stderr, 300)))
+			return
+		}
+		if first == nil {
+			first = res.Stdout
+			nums, _, _ := parseV1(res.Stdout)
+			for _, k := range allNumericKeys() {
+				if nums[k] != want[k] {
+					mk("cli-mismatch", fmt.Sprintf("%s: reported %d, true %d", k, nums[k], want[k]))
+				}
+			}
+		} else if !bytes.Equal(first, res.Stdout) {
+			mk("layout-dependent", "the report differs from the one for loose storage")
+		}
+	}
+	sh.C.Nontrivial++
+}
+
 func init() {
 	asm := []string{
 		"the model git (modelgit) answers as git 2.39.5 does for the commands git-sizer issues; bound by the conformance pass (./check conformance) against real git",
@@ -824,11 +945,11 @@ func init() {
 	Registry["C01"] = &Check{Level: "model_checking", Worker: c01Worker, QuickBudget: 50 * time.Second, ThoroughBudget: 8 * time.Minute,
 		Rule: "bounded-exhaustive product of tree DAGs (2 trees) x 4 commit shapes x 5 tag configurations with unreachable noise and detached HEAD; for each every subset of references as selection x ROOT in {none, commit, tree, blob, tag+commit}; scanned in-process by the real CollectReferences+ScanRepositoryUsingGraph under git's order and one deviation; census keys compared with the independent oracle. non-trivial = a (repository, selection) pair with at least one root", Assumptions: asm}
 	Registry["C02"] = &Check{Level: "model_checking", Worker: c02Worker, QuickBudget: 50 * time.Second, ThoroughBudget: 8 * time.Minute,
-		Rule: "all commit DAGs (n<=4 quick, 5 thorough) x all message-length vectors (ties) x all linear extensions; blob-size vectors over {0,3,9} x 3 layouts x all tree/blob listing permutations (cap 720); blob-only/tree-only root sets; maxima compared with the oracle. non-trivial = scenario with more than one listing order", Assumptions: asm}
+		Rule: "all commit DAGs (n<=4) x all message-length vectors (2 lengths quick, 4 with ties thorough) x all linear extensions; blob-size vectors over {0,3,9} x 3 layouts x all tree/blob listing permutations (cap 720); blob-only/tree-only root sets; maxima compared with the oracle. non-trivial = scenario with more than one listing order", Assumptions: asm}
 	Registry["C03"] = &Check{Level: "model_checking", Worker: c03Worker, QuickBudget: 50 * time.Second, ThoroughBudget: 10 * time.Minute,
-		Rule: "all commit DAGs on n commits (n<=4 quick, n<=5 thorough) x all non-empty root subsets x all linear extensions of the listing; all tag forests on m tags (m<=4 / 5) x all non-empty root subsets x all m! listing orders; max_history_depth and max_tag_depth compared with the longest-chain oracle. non-trivial = scenario with more than one admissible order", Assumptions: asm}
+		Rule: "all commit DAGs on n commits (n<=4 quick, n<=5 thorough) x all non-empty root subsets x all linear extensions of the listing; all tag forests on m tags (m<=4 / 5) x all non-empty root subsets x all m! listing orders; max_history_depth and max_tag_depth compared with the longest-chain oracle; real git deciding the order: every DAG on n<=3 (quick) / n<=4 (thorough) commits x every assignment of distinct timestamps (children older than parents included) through the real binary with real git. non-trivial = scenario with more than one admissible order", Assumptions: asm}
 	Registry["C04"] = &Check{Level: "model_checking", Worker: c04Worker, QuickBudget: 50 * time.Second, ThoroughBudget: 10 * time.Minute,
 		Rule: "all tree DAGs with <=3 generated trees over the tier's name/leaf alphabet x all listing permutations of the trees; other trees reached from a lightweight tag or an annotated tag of a tree; special-name single shapes; seven checkout dimensions compared separately with the recursive-expansion oracle. non-trivial = scenario with more than one listing order", Assumptions: asm}
 	Registry["C09"] = &Check{Level: "model_checking", Worker: c09Worker, QuickBudget: 50 * time.Second, ThoroughBudget: 10 * time.Minute,
-		Rule: "for each mixed repository (trees x commit shapes x tag configurations): every listing permutation of trees, tags, blobs and every linear extension of commits (capped per scenario, cap reported) and every permutation of the reference listing; all numeric keys must equal the first order's and the oracle's", Assumptions: asm}
+		Rule: "for each mixed repository (trees x commit shapes x tag configurations): every listing permutation of trees, tags, blobs and every linear extension of commits (capped per scenario, cap reported) and every permutation of the reference listing; all numeric keys must equal the first order's and the oracle's; root-order family (every subset of aliasing references x every permutation of the reference listing x 3 ROOT lists); explicit-state search at the Graph API with full state keys (states = delivered sets, every path into a set must give the same canonical key of the entire private state; tree DAGs with 3 (4) generated trees, a 10 (12)-tree shared DAG, all tag forests on 5 (6) tags); storage layouts with real git (loose, pack-refs, repack -ad, gc, gc --aggressive --prune=now, repack -f --depth=1) on every 37th (quick) / 5th (thorough) mixed repository: byte-identical JSON equal to the oracle", Assumptions: asm}
 }
